@@ -748,6 +748,7 @@ fn gen_history(r: &mut Rng, cfg: &Cfg, len: usize) -> Vec<Ev> {
     let names: Vec<usize> = if r.chance(2, 3) { vec![0, 2] } else { vec![0, 1, 2] };
     let types: Vec<u16> = match r.below(4) { 0 => vec![1], 1 => vec![1, 28], 2 => vec![1, 46], _ => vec![16, 47, 43] };
     let mut ser = r.below(1000) as u32 * 64;
+    let cd_do = r.chance(1, 6);
     let mut evs = vec![];
     let mut since = 0u64; // time since the last event that may have been forwarded
     for i in 0..len {
@@ -771,6 +772,8 @@ fn gen_history(r: &mut Rng, cfg: &Cfg, len: usize) -> Vec<Ev> {
         let q = QSpec { name: *r.pick(&names), class: if r.chance(1, 40) { 3 } else { 1 }, rtype: *r.pick(&types),
             rd: r.chance(1, 2), cd: r.chance(1, 8), ad: r.chance(1, 3), do_: r.chance(1, 3), opcode, base_opt: 0, own: 0 };
         let mut q = q;
+        // 1 history in 6: DO requests throughout, CD set every other time (CD partitions the cache for DO requests too)
+        if cd_do { q.do_ = true; q.cd = r.chance(1, 2); }
         // EDNS by other routes: an OPT record in the hand-made base message (dropped), other setters
         match r.below(10) { 0 | 1 => { q.base_opt = 1 + q.do_ as u8; q.do_ = false; } 2 => { q.base_opt = r.range(1, 2) as u8; q.own = 1; } 3 => { q.own = 2; q.do_ = false; } 4 => { q.own = 1; } _ => {} }
         let resp = gen_resp(r, &q, &ttls, &mut ser);
